@@ -25,10 +25,10 @@ Lemma rounding_places_guarded :
 Proof. vm_compute. repeat split; reflexivity. Qed.
 
 (* the limit on decimal exponents is in the source and is the model's; Multiply starts with the exponent guard,
-   Divide and Mod start with the zero-divisor guard *)
+   Divide and Mod start with the zero-divisor guard, Exponent with its three guards *)
 Lemma operator_guards_in_source :
   max_number_exponent_src = max_number_exponent /\ forallb snd operator_guards = true
-  /\ List.length operator_guards = 3%nat.
+  /\ List.length operator_guards = 6%nat.
 Proof. vm_compute. repeat split; reflexivity. Qed.
 
 (* ------------------------------------------------------------------------------------------------ *)
